@@ -80,7 +80,17 @@ func (g *Gen) GenFunc(key string) (res *FnResult) {
 		}
 	}
 	for _, li := range findLoops(fn) {
-		res.Loops = append(res.Loops, fmt.Sprintf("loop %d: %s block %d (%s)", li.ordinal, posOf(g, firstPos(li.header)), li.header.Index, li.header.Comment))
+		tok := ""
+		for b := range li.blocks {
+			for _, in := range b.Instrs {
+				if c, ok := in.(ssa.CallInstruction); ok {
+					if sc := c.Common().StaticCallee(); sc != nil && sc.String() == "(*encoding/xml.Decoder).Token" {
+						tok = " token-loop"
+					}
+				}
+			}
+		}
+		res.Loops = append(res.Loops, fmt.Sprintf("loop %d: line %d block %d (%s)%s", li.ordinal, g.Prog.Fset.Position(firstPos(li.header)).Line, li.header.Index, li.header.Comment, tok))
 	}
 	c.topArgs = args
 	c.entry = st.clone()
